@@ -78,6 +78,9 @@ def pad_text(style, k):
         return "\n" * k
     if style == "comment":
         return "#" + "c" * max(0, k - 2) + "\n"
+    if style == "barcomment":      # comment lines that contain the characters chain continuations start with
+        unit = "# a | b |> c |@d ||\n#|.e\n"
+        return "#|\n" if k <= 3 else (unit * (k // len(unit) + 1))[:k - 1].rsplit("\n", 1)[0] + "\n" if k > len(unit) else "# a | b |@c\n"
     if style == "mixed":
         unit = " \t# x y\n"
         return (unit * (k // len(unit) + 1))[:max(1, k - 1)].rsplit("\n", 1)[0] + "\n" if k > len(unit) else "\n"
@@ -156,13 +159,13 @@ def run():
                 if b[o:o + len(lit.encode())] == lit.encode():
                     spots.append(o + lit.encode().index(b"\n"))
                     spot_kinds.append(name_)
-        STYLES = ["blank", "comment", "mixed", "spaces", "indent"]
+        STYLES = ["blank", "comment", "mixed", "spaces", "indent", "barcomment", "trailbar"]
         plan = []
         if i >= ncorpus:       # generated programs: every line break x every style x small and boundary sizes
             plan = [(o, st, k) for o in spots for st in STYLES for k in (1, 3, 1024, 2049)]
         else:
             chain_spots = [o for (o, nm) in zip(spots, spot_kinds) if nm != "RET"][:3]
-            plan = [(o, st, rng.choice([1, 2, 3, 1025])) for o in chain_spots for st in ("indent", "mixed", "comment")]
+            plan = [(o, st, rng.choice([1, 2, 3, 1025])) for o in chain_spots for st in ("indent", "mixed", "comment", "barcomment", "trailbar")]
             for o in rng.sample(spots, min(nsel_pos, len(spots))):
                 for _ in range(nsel_pad):
                     plan.append((o, rng.choice(STYLES), rng.choice(SIZES)))
@@ -170,6 +173,8 @@ def run():
             if True:
                 if style == "spaces":
                     v = b[:o] + (b" " * (k // 2) + b"\t" * (k - k // 2)) + b[o:]
+                elif style == "trailbar":      # a trailing comment on the line that ends here
+                    v = b[:o] + b" # t | u" + b"|" * k + b[o:]
                 else:
                     v = b[:o + 1] + pad_text(style, k).encode() + b[o + 1:]
                 rid = f"l{i}.{len(reqs)}"
@@ -240,7 +245,7 @@ def run():
     ck.cov["traces_validated_against_impl"] = len(rows)
     ck.cov["corpus_files_used"] = usable
     ck.cov["rule"] = (f"corpus = {len(files)} Pangaea files of the repository (tests/, example/, native/); per file: read schedules from {CHUNKS}, "
-                      f"line breaks (RET and multi-line chain tokens) padded with blank/comment/mixed/space layout of sizes {SIZES}; generated programs "
+                      f"line breaks (RET and multi-line chain tokens) padded with blank/comment/comment-with-bars/trailing-comment/mixed/space layout of sizes {SIZES}; generated programs "
                       "with string/raw-string/comment/identifier/blank-run tokens of length 1..10000 at offsets 0..2040; each variant's token stream + "
                       "tree is validated against the base by Trace_C16; non-trivial = validated variants")
     ck.assumptions = ["ast String() does not print source positions", "layout-carrying tokens are RET and MULTILINE_*_CHAIN"]
